@@ -39,9 +39,10 @@ class Pipe:
     def _arm(self):
         if self.q:
             self.busy = True
-            self.loop.external(self.q[0][0], self._fire, group=self.group)
+            self._timer = self.loop.external(self.q[0][0], self._fire, group=self.group)
         else:
             self.busy = False
+            self._timer = None
 
     def _fire(self):
         if not self.q:  # cleared while the pump timer was armed
@@ -63,7 +64,13 @@ class Pipe:
             self._arm()
 
     def clear(self):
+        """Everything in flight is gone (the peer died / the line was cut): later bytes travel on an empty line."""
         self.q.clear()
+        self.last = self.loop.time()
+        if getattr(self, "_timer", None) is not None:
+            self._timer.cancel()  # the pump was waiting for the head of the old queue (possibly a stalled frame, seconds away)
+            self._timer = None
+        self.busy = False
 
 
 class SimTransport:
@@ -78,13 +85,27 @@ class SimTransport:
         self.writes_after_close = 0
         self.raised = []  # exceptions escaping protocol.data_received
         self.log = log
+        # a real transport may keep a reference to what write() was given until it has drained: the caller must not touch the object again
+        self._kept = []  # (object, snapshot at write time) for mutable arguments
+        self.on_mutated = None  # callable(snapshot, now) when a buffer handed to write() was changed afterwards
 
     # --- transport API used by bellows
     def write(self, data):
+        self.check_kept()
         if self._closing:
             self.writes_after_close += 1
             return
+        if not isinstance(data, bytes):
+            self._kept = self._kept[-7:] + [(data, bytes(data))]
         self.on_write(bytes(data))
+
+    def check_kept(self):
+        for obj, snap in self._kept:
+            now = bytes(obj)
+            if now != snap:
+                self._kept = [(o, s_) for (o, s_) in self._kept if o is not obj]
+                if self.on_mutated is not None:
+                    self.on_mutated(snap, now)
 
     def is_closing(self):
         return self._closing
